@@ -22,7 +22,7 @@ func vh_C20_L1_api_lock_balance() {
 		steps = 3
 	}
 	for i := 0; i < steps; i++ {
-		switch vPick(16) {
+		switch vPick(18) {
 		case 0:
 			_, _ = s.WriteSCTP(nondetBytes(1+vPick(2)), PayloadTypeWebRTCBinary)
 		case 1:
@@ -69,6 +69,10 @@ func vh_C20_L1_api_lock_balance() {
 			a.onAckTimeout()
 		case 14:
 			a.ActiveHeartbeat()
+		case 16:
+			a.onPTOTimer() // the tail-loss-probe deadline passes (timerLoop calls this without any lock)
+		case 17:
+			a.onRackTimeout()
 		case 15:
 			sack := &chunkSelectiveAck{cumulativeTSNAck: nondetU32(), advertisedReceiverWindowCredit: nondetU32()}
 			_ = vDeliver(a, sack)
